@@ -47,6 +47,147 @@ let do_set id opss =
   prefixes [] ops;
   print_endline (Buffer.contents buf)
 
+
+(* ---------- s-expressions ---------- *)
+type sexp = Atom of string | L of sexp list
+
+let parse_sexp (s : string) : sexp =
+  let n = String.length s in
+  let pos = ref 0 in
+  let rec skip () = if !pos < n && (s.[!pos] = ' ' || s.[!pos] = '\n' || s.[!pos] = '\t') then (incr pos; skip ()) in
+  let rec parse () =
+    skip ();
+    if !pos >= n then failwith "sexp: eof"
+    else if s.[!pos] = '(' then begin
+      incr pos;
+      let items = ref [] in
+      let rec loop () =
+        skip ();
+        if !pos >= n then failwith "sexp: unclosed"
+        else if s.[!pos] = ')' then incr pos
+        else (items := parse () :: !items; loop ()) in
+      loop (); L (List.rev !items)
+    end else begin
+      let st = !pos in
+      while !pos < n && s.[!pos] <> ' ' && s.[!pos] <> '(' && s.[!pos] <> ')' do incr pos done;
+      Atom (String.sub s st (!pos - st))
+    end in
+  parse ()
+
+let ios = int_of_string
+let atom = function Atom a -> a | _ -> failwith "atom expected"
+
+let rec expr_of = function
+  | L [Atom "dot"] -> EDot
+  | L [Atom "c"; Atom n] -> EChar (z_of_int (ios n))
+  | L [Atom "r"; Atom a; Atom b] -> ERange (z_of_int (ios a), z_of_int (ios b))
+  | L [Atom "n"; Atom r] -> EName (nat_of_int (ios r))
+  | L [Atom "p"; Atom k] -> EPred (nat_of_int (ios k))
+  | L [Atom "s"; Atom k] -> EState (nat_of_int (ios k))
+  | L [Atom "a"; Atom k] -> EAct (nat_of_int (ios k))
+  | L [Atom "nil"] -> ENil
+  | L (Atom "seq" :: es) -> ESeq (List.map expr_of es)
+  | L (Atom "alt" :: es) -> EAlt (List.map expr_of es)
+  | L [Atom "and"; e] -> EAnd (expr_of e)
+  | L [Atom "not"; e] -> ENot (expr_of e)
+  | L [Atom "q"; e] -> EQuery (expr_of e)
+  | L [Atom "star"; e] -> EStar (expr_of e)
+  | L [Atom "plus"; e] -> EPlus (expr_of e)
+  | L [Atom "push"; e] -> EPush (expr_of e)
+  | L (Atom "sw" :: items) ->
+      let cases = List.filter_map (function
+        | L [Atom "case"; L keys; e] -> Some (List.map (fun k -> z_of_int (ios (atom k))) keys, expr_of e)
+        | _ -> None) items in
+      let d = List.find_map (function L [Atom "default"; e] -> Some (expr_of e) | _ -> None) items in
+      (match d with Some d -> ESwitch (cases, d) | None -> failwith "sw: no default")
+  | _ -> failwith "bad expr"
+
+let rule_of = function
+  | L [Atom "B"; e] -> RBody (expr_of e)
+  | L [Atom "A"; Atom k] -> RAct (nat_of_int (ios k))
+  | L [Atom "N"] -> RNil
+  | _ -> failwith "bad rule"
+
+let grammars : (string, (rbody list * nat)) Hashtbl.t = Hashtbl.create 64
+
+let do_grammar rest =
+  match String.index_opt rest ' ' with
+  | None -> failwith "grammar: id"
+  | Some i ->
+    let gid = String.sub rest 0 i in
+    let rest = String.sub rest (i + 1) (String.length rest - i - 1) in
+    let j = String.index rest ' ' in
+    let ptx = ios (String.sub rest 0 j) in
+    (match parse_sexp (String.sub rest (j + 1) (String.length rest - j - 1)) with
+     | L (Atom "g" :: rules) -> Hashtbl.replace grammars gid (List.map rule_of rules, nat_of_int ptx)
+     | _ -> failwith "grammar: sexp")
+
+let tok_s (r, (b, e)) = Printf.sprintf "%d:%d:%d" (int_of_nat r) (int_of_nat b) (int_of_nat e)
+let toks_s l = String.concat "," (List.map tok_s l)
+let trace_s l = String.concat "," (List.map (fun (k, (b, e)) -> Printf.sprintf "%d:%d:%d" (int_of_nat k) (int_of_nat b) (int_of_nat e)) l)
+let tree_s l = String.concat "," (List.map (fun (d, t) -> Printf.sprintf "%d:%s" (int_of_nat d) (tok_s t)) l)
+let runes_s l = String.concat "." (List.map (fun c -> string_of_int (int_of_z c)) l)
+
+let parse_inputs s =
+  List.map (fun part -> List.map (fun x -> z_of_int (ios x)) (split_on ',' part))
+    (String.split_on_char ';' s)
+
+let obs_s o =
+  let err = match o.ob_err with
+    | None -> "-"
+    | Some (((r, (l1, c1)), (l2, c2)), txt) ->
+      Printf.sprintf "%d:%d:%d:%d:%d:%s" (int_of_nat r) (int_of_nat l1) (int_of_nat c1) (int_of_nat l2) (int_of_nat c2) (runes_s txt) in
+  Printf.sprintf "st=%d pos=%d toks=%s max=%s trace=%s tree=%s err=%s alog=%s memo=%d"
+    (int_of_nat o.ob_status) (int_of_nat o.ob_pos) (toks_s o.ob_tokens) (tok_s o.ob_maxtok)
+    (trace_s o.ob_trace) (tree_s o.ob_tree) err (trace_s o.ob_alog) (int_of_nat o.ob_memo)
+
+(* run <gid> <caseid> <ast> <memo> <inline> <entry> <fuel> <inputs> *)
+let do_run rest =
+  match String.split_on_char ' ' rest with
+  | gid :: cid :: ast :: memo :: inl :: entry :: fuel :: tl ->
+    let (g, ptx) = Hashtbl.find grammars gid in
+    let inputs = parse_inputs (String.concat " " tl) in
+    let o = x_mk_opts (ast = "1") (memo = "1") (inl = "1") g in
+    let obs = x_run_history g ptx o (nat_of_int (ios fuel)) (nat_of_int (ios entry)) x_zero_state inputs in
+    print_endline (Printf.sprintf "run %s %s :: %s" gid cid (String.concat " | " (List.map obs_s obs)))
+  | _ -> failwith "run: args"
+
+(* spec <gid> <caseid> <entry> <fuel> <input> *)
+let do_spec rest =
+  match String.split_on_char ' ' rest with
+  | gid :: cid :: entry :: fuel :: tl ->
+    let (g, ptx) = Hashtbl.find grammars gid in
+    let input = List.hd (parse_inputs (String.concat " " tl)) in
+    let r = x_spec_parse g ptx (nat_of_int (ios fuel)) (nat_of_int (ios entry)) input in
+    (match r with
+     | None -> print_endline (Printf.sprintf "spec %s %s :: res=N" gid cid)
+     | Some (res, evs) ->
+       let ff = x_first_furthest evs in
+       let seen = Hashtbl.create 16 in
+       let dup = ref 0 in
+       List.iter (fun (r, (b, _)) -> let k = (int_of_nat r, int_of_nat b) in
+                   if Hashtbl.mem seen k then incr dup else Hashtbl.add seen k ()) evs;
+       (match res with
+        | Fail -> print_endline (Printf.sprintf "spec %s %s :: res=F ff=%s dup=%d nev=%d" gid cid (tok_s ff) !dup (List.length evs))
+        | Succ (p, f) ->
+          let ts = x_flat f in
+          print_endline (Printf.sprintf "spec %s %s :: res=S pos=%d toks=%s trace=%s dup=%d nev=%d" gid cid (int_of_nat p) (toks_s ts)
+                           (trace_s (x_execute g ptx ts (O, O))) !dup (List.length evs))))
+  | _ -> failwith "spec: args"
+
+(* gen <gid> <inline> : the generator decisions the model takes *)
+let do_gen rest =
+  match String.split_on_char ' ' rest with
+  | [gid; inl] ->
+    let (g, _) = Hashtbl.find grammars gid in
+    let it = x_inline_table (inl = "1") g in
+    let asu = List.mapi (fun i _ -> x_asu_rule g (nat_of_int i)) g in
+    let (reached, counts) = x_count_rules g in
+    let bs l = String.concat "" (List.map (fun b -> if b then "1" else "0") l) in
+    print_endline (Printf.sprintf "gen %s :: inline=%s asu=%s reached=%s counts=%s" gid (bs it) (bs asu) (bs reached)
+                     (String.concat "," (List.map (fun c -> string_of_int (int_of_nat c)) counts)))
+  | _ -> failwith "gen: args"
+
 let () =
   try
     while true do
@@ -55,11 +196,20 @@ let () =
       | None -> ()
       | Some i ->
         let cmd = String.sub line 0 i and rest = String.sub line (i + 1) (String.length line - i - 1) in
-        (match cmd with
-         | "set" ->
-           (match String.index_opt rest ' ' with
-            | Some j -> do_set (String.sub rest 0 j) (String.sub rest (j + 1) (String.length rest - j - 1))
-            | None -> do_set rest "")
-         | _ -> print_endline ("ERR unknown command " ^ cmd))
+        (try
+          (match cmd with
+           | "set" ->
+             (match String.index_opt rest ' ' with
+              | Some j -> do_set (String.sub rest 0 j) (String.sub rest (j + 1) (String.length rest - j - 1))
+              | None -> do_set rest "")
+           | "grammar" -> do_grammar rest
+           | "run" -> do_run rest
+           | "spec" -> do_spec rest
+           | "gen" -> do_gen rest
+           | _ -> print_endline ("ERR unknown command " ^ cmd))
+        with
+        | Stack_overflow -> print_endline ("ERR stack overflow: " ^ (String.sub line 0 (min 60 (String.length line))))
+        | Failure m -> print_endline ("ERR " ^ m ^ ": " ^ (String.sub line 0 (min 60 (String.length line))))
+        | Not_found -> print_endline ("ERR not found: " ^ (String.sub line 0 (min 60 (String.length line)))))
     done
   with End_of_file -> ()
